@@ -352,7 +352,10 @@ def _sorted(ctx, st, v, key, node):
         return res
     if isinstance(v, SV) and v.ty.kind == "seq":
         ety = v.ty.args[0]
-        f = core.uf(f"sorted_seq<{ety!r}>[{keyname}]", v.ty.sort(), v.ty.sort())
+        fname = f"sorted_seq<{ety!r}>[{keyname}]"
+        f = core.uf(fname, v.ty.sort(), v.ty.sort())
+        # ASSUMED: sorted() of a sequence has as many elements as the sequence
+        core.TERM_AXIOMS.setdefault(fname, lambda app: [z3.Length(app) == z3.Length(app.arg(0))])
         return SV(v.ty, f(v.t))
     raise Unsupported("sorted() argument")
 
@@ -460,3 +463,30 @@ def _FunctionType(ctx, st, code, globals_=None, name=None, argdefs=None, closure
     from pyvc.values import FuncRef
     f = code.fields["_func"]
     return FuncRef(f.dotted, co_name=code.fields.get("co_name"), fresh=True)
+
+
+# ----------------------------------------------------------------------------- str.endswith / str.startswith on symbolic names
+def _affix(kind):
+    f = core.uf(f"str.{kind}", TName.sort(), TName.sort(), z3.BoolSort())
+
+    def attr(ctx, st, obj):
+        def impl(c, s_, suffix):
+            if isinstance(suffix, (tuple, list)):
+                return SV(TBool, z3.Or(*[f(obj.t, lift(x, TName).t) for x in suffix]))
+            return SV(TBool, f(obj.t, lift(suffix, TName).t))
+        return V.BoundMethod(obj, kind, impl)
+    registry.EXTERNALS[f"Name.{kind}"] = attr
+    registry.SPECS[kind] = lambda ctx, st, a, b: (getattr(a, kind)(b) if isinstance(a, str) and isinstance(b, str)
+                                                 else SV(TBool, f(lift(a, TName).t, lift(b, TName).t)))
+
+    def axiom(app):
+        a, b = app.children()
+        la, lb = core.lit_value(a), core.lit_value(b)
+        if la is not None and lb is not None:
+            return [app == getattr(la, kind)(lb)]  # both operands are literals: CPython's own answer
+        return []
+    core.TERM_AXIOMS[f"str.{kind}"] = axiom
+
+
+for _k in ("endswith", "startswith"):
+    _affix(_k)
